@@ -39,6 +39,9 @@ func (p *pp) startUnsafe() restorer {
 	if p.override != overrideSafe {
 		p.buf.SetMode(b.UnsafeEscaped)
 	}
+	if verifOn {
+		verifMode(p, "U", int(prevMode), int(p.override))
+	}
 	return restorer{p, prevMode, p.override}
 }
 
@@ -46,6 +49,9 @@ func (p *pp) startPreRedactable() restorer {
 	prevMode := p.buf.GetMode()
 	if p.override != overrideUnsafe {
 		p.buf.SetMode(b.PreRedactable)
+	}
+	if verifOn {
+		verifMode(p, "R", int(prevMode), int(p.override))
 	}
 	return restorer{p, prevMode, p.override}
 }
@@ -57,6 +63,9 @@ func (p *pp) startSafeOverride() restorer {
 		p.buf.SetMode(b.SafeEscaped)
 		p.override = overrideSafe
 	}
+	if verifOn {
+		verifMode(p, "SO", int(prevMode), int(prevOverride))
+	}
 	return restorer{p, prevMode, prevOverride}
 }
 
@@ -66,6 +75,9 @@ func (p *pp) startUnsafeOverride() restorer {
 	if p.override == noOverride {
 		p.buf.SetMode(b.UnsafeEscaped)
 		p.override = overrideUnsafe
+	}
+	if verifOn {
+		verifMode(p, "UO", int(prevMode), int(prevOverride))
 	}
 	return restorer{p, prevMode, prevOverride}
 }
@@ -79,6 +91,9 @@ type restorer struct {
 func (r restorer) restore() {
 	r.p.buf.SetMode(r.prevMode)
 	r.p.override = r.prevOverride
+	if verifOn {
+		verifMode(r.p, "X", int(r.prevMode), int(r.prevOverride))
+	}
 }
 
 func (p *pp) handleSpecialValues(
